@@ -108,7 +108,9 @@ func (u *c10UI) Print(args ...interface{}) {
 		u.said = append(u.said, "P:"+fmt.Sprint(args...))
 	}
 	if u.pos >= 1 && !u.inReport {
-		u.add(c10Event{kind: "p"})
+		// what a command that is not a report prints (help, o, options) is part of the transcript too
+		m := fmt.Sprint(args...)
+		u.add(c10Event{kind: "p", hash: c10ShortHash(m), out: m})
 	}
 }
 func (u *c10UI) PrintErr(args ...interface{}) {
@@ -133,7 +135,7 @@ func (u *c10UI) PrintErr(args ...interface{}) {
 	code := c10ErrCode(m)
 	switch {
 	case code == 0:
-		u.add(c10Event{kind: "p"})
+		u.add(c10Event{kind: "p", hash: c10ShortHash(m), out: m})
 	case code > 0:
 		u.add(c10Event{kind: "e", code: code})
 	}
@@ -427,7 +429,7 @@ func c10EventTerm(e c10Event, same bool) Term {
 	case "e":
 		return L(S("e"), ZI(e.code))
 	}
-	return L(S("p"))
+	return L(S("p"), Bool(same))
 }
 
 func runC10(c *Ctx) {
@@ -523,7 +525,7 @@ func c10ReportHashes(evs []c10Event) []string {
 	var hs []string
 	c10LastRefOuts = nil
 	for _, e := range evs {
-		if e.kind == "r" {
+		if e.kind == "r" || e.kind == "p" {
 			hs = append(hs, e.hash)
 		} else {
 			hs = append(hs, "")
@@ -552,10 +554,12 @@ func c10History(c *Ctx, gen string, p *profile.Profile, ref, p0dump string, cfg0
 		var first []string
 		for ei, e := range ui.ev[li] {
 			same := true
-			if e.kind == "r" {
-				st.reports++
-				nt = true
-				if gen == "session-src" && (e.cmd[0] == "list" || e.cmd[0] == "weblist") {
+			if e.kind == "r" || e.kind == "p" {
+				if e.kind == "r" {
+					st.reports++
+					nt = true
+				}
+				if e.kind == "r" && gen == "session-src" && (e.cmd[0] == "list" || e.cmd[0] == "weblist") {
 					switch {
 					case strings.Contains(e.out, "/* A "):
 						st.srcA++
@@ -582,7 +586,7 @@ func c10History(c *Ctx, gen string, p *profile.Profile, ref, p0dump string, cfg0
 						same = true
 					}
 				}
-				if !same || !e.pristine {
+				if !same || (e.kind == "r" && !e.pristine) {
 					st.leaks++
 					if _, have := c.Extra["session_mismatch_sample"]; !have && ei < len(c10LastRefOuts) {
 						c.Extra["session_mismatch_sample"] = lines[li] + ": " + c10FirstDiff(e.out, c10LastRefOuts[ei])
